@@ -72,12 +72,12 @@ func goroutines() []gor {
 			}
 			g.Stack = append(g.Stack, fn)
 		}
+		// signature = the goroutine's entry function (outermost relevant frame) and who created it: stable while
+		// the goroutine moves through its code, and it names the piece of code that left it behind
 		rel := ""
 		for _, fn := range g.Stack {
 			if relevantFrame(fn) {
 				rel = fn
-
-				break
 			}
 		}
 		if rel == "" && !relevantFrame(creator) {
